@@ -194,5 +194,6 @@ def run_case(case):
         res["sample"] = {"cls": cls, "shape": shape, "L": Ls}
     elif k == "labels":
         LBL.check_mesh_labels(case["cls"], res, "C10")
+        LBL.check_face_labels(case["cls"], res, "C10")      # vector components (FaceVariable) as well
     res["outcomes"] = {"%s:%s" % (k, "ok" if not res["findings"] else "viol"): 1}
     return res
